@@ -564,6 +564,25 @@ def builtin_workload(ck, st, L, X, K, rng, tier):
                 st['samples'].append(dict(call='Crystal_F_H_StructureFactor_Partial(%s, %.6g, %d,%d,%d, %g, %g, 2,2,2)' % (cr.label, fE[m][i], Hf[m][i][0], Hf[m][i][1], Hf[m][i][2], fD[m][i], fr[m][i]),
                                           returned=[F[m][i, K222].real, F[m][i, K222].imag], atoms=len(cr.Z), Q=float(Qf[m][i])))
 
+    # ---- the same requests WITHOUT an error slot: bit-identical values, i.e. 0 / (0,0) wherever the call fails (no reflection,
+    # missing atomic data, ...) -----------------------------------------------------------------------------------------------
+    Ln = execlib.Lib(L.config, env={'XV_NOSLOT': '1'})
+    sp0 = lambda fn, ci, icols, dcols=(): Ln.special(fn, s=[names[c] for c in np.asarray(ci).tolist()], i=icols, d=dcols)
+    noslot = [('Bragg_angle', rb, sp0('Bragg_angle', bc, [cube[bh, 0], cube[bh, 1], cube[bh, 2]], [bE]), bc, cube[bh], bE),
+              ('Q_scattering_amplitude', rq, sp0('Q_scattering_amplitude', ac, [Ha[:, 0], Ha[:, 1], Ha[:, 2]], [aE, ar]), ac, Ha, aE),
+              ('Crystal_F_H_StructureFactor_Partial', rF, sp0('Crystal_F_H_StructureFactor_Partial', rep(fc, n12),
+               [rep(Hf[:, 0], n12), rep(Hf[:, 1], n12), rep(Hf[:, 2], n12), FL[:, 0], FL[:, 1], FL[:, 2]], [rep(fE, n12), rep(fD, n12), rep(fr, n12)]), rep(fc, n12), np.repeat(Hf, n12, axis=0), rep(fE, n12)),
+              ('Crystal_F_H_StructureFactor', rFf, sp0('Crystal_F_H_StructureFactor', fc, [Hf[:, 0], Hf[:, 1], Hf[:, 2]], [fE, fD, fr]), fc, Hf, fE)]
+    for fn, a, b, cc_, HH_, EE_ in noslot:
+        va, vb = a.v3[:, :2], b.v3[:, :2]
+        bad = np.nonzero(((va.view('u8') != vb.view('u8')) & ~(np.isnan(va) & np.isnan(vb))).any(axis=1))[0]
+        st['noslot'] = st.get('noslot', 0) + len(a)
+        for k in bad[:2]:
+            ck.violation('c13:%s:value-without-error-slot-differs' % fn,
+                         '%s(%s, E=%.17g, hkl=%r, ...) returns %r without an error slot and %r (%s) with one' % (
+                             fn, names[int(cc_[k])], float(EE_[k]), HH_[k].tolist(), vb[k].tolist(), va[k].tolist(), a.msg(k) if a.err[k] else 'success'),
+                         dict(function=fn, crystal=names[int(cc_[k])], hkl=HH_[k].tolist(), energy=float(EE_[k]), error_slot=False))
+
     # ---- invalid arguments: an error, never a number -----------------------------------------------------------------------
     bad_flags = np.array([f for f in itertools.product(range(-1, 4), repeat=3) if tuple(f) not in set(FLAGS)], int)
     pick = np.arange(nc) if not quick else np.arange(0, nc, 3)
